@@ -167,6 +167,9 @@ class TierHistory:
         lo = r.choice([0.0, 0.0, None, self.src(self.hi) / 4])
         hi = r.choice([self.hi, None, self.hi + self.src(self.hi)])
         if not ents and (lo is None or hi is None):
+            if self.hostile and isinstance(ents, list) and r.random() < 0.3:
+                # no entries and only one end of the span (or neither): there is no tier to build - refused, with one of the library's errors
+                self._run("construct", None, klass, (r.choice(HNAMES), [], lo, hi))
             lo, hi = 0.0, self.hi
         return self._run("construct", None, klass, (r.choice(HNAMES), ents, lo, hi))
 
